@@ -156,12 +156,14 @@ class _Generator(Generator):
                     '    {});'.format(type_.number_of_bits)
                 ],
                 [
-                    'dst_p->{} = ({})decoder_read_non_negative_binary_integer('.format(
+                    # The offset is added as unsigned, as adding to
+                    # the signed value may overflow for invalid input.
+                    'dst_p->{} = ({})(decoder_read_non_negative_binary_integer('.format(
                         location,
                         type_name),
                     '    decoder_p,',
-                    '    {});'.format(type_.number_of_bits),
-                    'dst_p->{} += {};'.format(location, checker.minimum)
+                    '    {}) + (uint64_t){});'.format(type_.number_of_bits,
+                                                      checker.minimum)
                 ]
             )
 
